@@ -350,6 +350,7 @@ class Evaluator:
         m = re.match(r"^(%[\w.]+) = (.*)$", ins)
         dst, rhs = (m.group(1), m.group(2)) if m else (None, ins)
         rhs = re.sub(r"^(tail |musttail |notail )", "", rhs)
+        rhs = re.sub(r"(, ![\w.]+ !\d+)+$", "", rhs)          # trailing metadata attachments (!prof, !nosanitize, ...)
         if "bitcast (" in rhs:
             # constant expression: the address of a global object viewed as another pointer type
             rhs = re.sub(r"bitcast \([^()]*? (@[\w.$]+) to [^()]*?\)", r"\1", rhs)
@@ -381,6 +382,15 @@ class Evaluator:
                     r = Poly.const(1)
                 else:
                     r = atom("ite", "slt %r , 0" % a, Poly.const(1), Poly.const(0))
+            elif op == "ashr" and ty == "i64" and b.is_const() and b.const_value() == 63:
+                # the sign mask of a 64-bit value: 0 for x >= 0, -1 for x < 0
+                sg = sign(a, signs)
+                if sg in (POS, NONNEG, ZERO):
+                    r = Poly.const(0)
+                elif sg == NEG:
+                    r = Poly.const(-1)
+                else:
+                    r = atom("ite", "slt %r , 0" % a, Poly.const(-1), Poly.const(0))
             elif op in ("ashr", "lshr"):
                 if not b.is_const():
                     raise Inconclusive("shr by non-constant")
@@ -392,6 +402,8 @@ class Evaluator:
                     r = q
                 else:
                     r = atom("div", a, Poly.const(d))
+            elif op in ("sdiv", "udiv", "srem", "urem") and (b.is_zero() or (b.is_const() and b.const_value() == 0)):
+                raise AssertFires("integer division by zero in %s (block %s): %s" % (fname, cur, rhs[:80]))
             elif op in ("sdiv", "udiv"):
                 r = sdiv(a, b, signs)
             elif op in ("srem", "urem"):
@@ -407,7 +419,9 @@ class Evaluator:
             env[dst] = r
             return None
         if op == "icmp":
-            mm = re.match(r"^icmp (\w+) (.+?) (\S+), (\S+)$", rhs)
+            mm = re.match(r"^icmp (\w+) (.+?) (\S+), (\S+?)(?:, !\w+ !\d+)*$", rhs)
+            if not mm:
+                raise Inconclusive("unparsed comparison: " + rhs[:80])
             pred, ty, a_s, b_s = mm.groups()
             a, b = self.val(a_s, env), self.val(b_s, env)
             env[dst] = Bool(decide_cmp(pred, a, b, signs), "%s %r , %r" % (pred, a, b))
@@ -563,6 +577,8 @@ class Evaluator:
                 return None
             if callee.startswith("llvm.assume") or callee.startswith("llvm.lifetime") or callee.startswith("llvm.dbg") or callee.startswith("llvm.experimental.noalias"):
                 return None
+            if callee.startswith("llvm.ubsantrap") or callee == "llvm.trap":
+                raise AssertFires("a compiler-inserted check traps (%s) in %s (block %s): division by zero" % (callee, fname, cur))
             if callee in ("__assert_fail", "abort", "_ZSt9terminatev", "__cxa_throw", "_ZSt20__throw_length_errorPKc"):
                 raise AssertFires("%s reached in %s (block %s): %s" % (callee, fname, cur, argstr[:120]))
             if callee in ("__cxa_allocate_exception", "__cxa_throw", "_ZSt20__throw_logic_errorPKc"):
